@@ -193,6 +193,148 @@ impl SubCheck for Adapters {
 }
 
 // ---------------------------------------------------------------------------------------------
+// Handler level: the adapter's handler next to the wrapped actor's handler
+// ---------------------------------------------------------------------------------------------
+
+#[derive(Clone, Debug, Serialize, Deserialize, PartialEq, Eq, Hash)]
+pub struct HandlerCase {
+    /// raw (not normalised) tables: a reaction may name the current state as new state, i.e. the
+    /// handler touches its state without changing it
+    pub tables: Tables,
+    pub adapter: u8,
+    pub position: u8,
+    pub state: u8,
+    /// 0 start, 1 message, 2 timeout, 3 random
+    pub event: u8,
+    pub arg: u8,
+    pub src: usize,
+}
+
+/// (state was touched, resulting state, commands)
+type Outcome = (bool, u8, String);
+
+fn call<A: Actor<Timer = u8, Random = u8>>(a: &A, st: &A::State, ev: u8, arg: u8, src: usize, msg: A::Msg, unwrap: &dyn Fn(&A::State) -> u8) -> Outcome {
+    let mut o = Out::new();
+    let mut cow = std::borrow::Cow::Borrowed(st);
+    match ev {
+        1 => a.on_msg(Id::from(0), &mut cow, Id::from(src), msg, &mut o),
+        2 => a.on_timeout(Id::from(0), &mut cow, &(arg % NT), &mut o),
+        _ => a.on_random(Id::from(0), &mut cow, &(arg % NR), &mut o),
+    }
+    (matches!(cow, std::borrow::Cow::Owned(_)), unwrap(&cow), format!("{:?}", o))
+}
+fn start<A: Actor<Timer = u8, Random = u8>>(a: &A, unwrap: &dyn Fn(&A::State) -> u8) -> Outcome {
+    let mut o = Out::new();
+    let st = a.on_start(Id::from(0), &mut o);
+    (true, unwrap(&st), format!("{:?}", o))
+}
+
+pub struct HandlerLevel;
+impl SubCheck for HandlerLevel {
+    type Case = HandlerCase;
+    fn name(&self) -> &'static str {
+        "handler_level_transparency"
+    }
+    fn cases(&self, tier: Tier) -> u32 {
+        tier.pick(30000, 600000)
+    }
+    fn strategy(&self, _tier: Tier) -> BoxedStrategy<HandlerCase> {
+        let p = adapter_params();
+        // un-normalised tables
+        let raw = {
+            let cell = |p: &SysParams| proptest::option::weighted(0.8, reaction_strategy(2, p));
+            let tab = |rows: u8, cols: u8, p: &SysParams| proptest::collection::vec(proptest::collection::vec(cell(p), cols as usize), rows as usize);
+            ((0..NS, proptest::collection::vec(cmd_strategy(2, p.w), 0..=2)), tab(NS, NM, &p), tab(NS, NT, &p), tab(NS, NR, &p)).prop_map(|(start, msg, timeout, random)| Tables { start, msg, timeout, random })
+        };
+        (raw, 0u8..5, 0u8..3, 0..NS, 0u8..4, any::<u8>(), 0usize..3)
+            .prop_map(|(tables, adapter, position, state, event, arg, src)| HandlerCase { tables, adapter, position, state, event, arg, src })
+            .boxed()
+    }
+    fn check(&self, c: &HandlerCase, cov: &mut Cov) -> Result<(), Fail> {
+        let t = Arc::new(c.tables.clone());
+        let m = c.arg % NM;
+        cov.eval();
+        macro_rules! compare {
+            ($name:expr, $M:ty, $inner:expr, $wrapper:expr, $wstate:expr, $unwrap:expr) => {{
+                let inner = $inner;
+                let wrapper = $wrapper;
+                let (want, got) = if c.event == 0 {
+                    (start(&inner, &|s: &u8| *s), start(&wrapper, &$unwrap))
+                } else {
+                    (call(&inner, &c.state, c.event, c.arg, c.src, <$M as MsgCodec>::from_u8(m), &|s: &u8| *s), call(&wrapper, &$wstate, c.event, c.arg, c.src, <$M as MsgCodec>::from_u8(m), &$unwrap))
+                };
+                let ev = ["on_start", "on_msg", "on_timeout", "on_random"][c.event as usize % 4];
+                ensure!(got.1 == want.1, format!("c15/{}/{}/state-differs", $name, ev), "{} through {}: state {} -> {} when wrapped, {} when bare", ev, $name, c.state, got.1, want.1);
+                ensure!(got.2 == want.2, format!("c15/{}/{}/commands-differ", $name, ev), "{} through {}: commands {} when wrapped, {} when bare", ev, $name, got.2, want.2);
+                ensure!(got.0 == want.0, format!("c15/{}/{}/state-ownership-differs", $name, ev), "{} through {} in state {}: the wrapped actor {} its state (result {}), the adapter reports {}", ev, $name, c.state, if want.0 { "touched" } else { "did not touch" }, want.1, if got.0 { "a touched state" } else { "an untouched state" });
+                cov.label(&format!("{}/{}", $name, ev));
+                if c.event != 0 && want.0 && want.1 == c.state {
+                    cov.label("touched_but_equal");
+                }
+                if c.event >= 2 || (want.0 && want.1 == c.state) {
+                    cov.nontrivial(c);
+                    if cov.wants_sample() {
+                        cov.sample(json!({"adapter": $name, "event": ev, "state": c.state, "arg": c.arg, "touched": want.0, "result_state": want.1, "commands": want.2}));
+                    }
+                }
+            }};
+        }
+        match c.adapter {
+            0 => compare!("choice1", u8, A0::new(t.clone()), Choice::<A0, Never>::new(A0::new(t.clone())), Choice::<u8, Never>::new(c.state), |s: &Choice<u8, Never>| *s.get()),
+            1 => {
+                if c.position % 2 == 0 {
+                    compare!("choice2", u8, A0::new(t.clone()), { let w: Ch2 = Choice::new(A0::new(t.clone())); w }, { let s: Choice<u8, Choice<u8, Never>> = Choice::new(c.state); s }, |s: &Choice<u8, Choice<u8, Never>>| match s {
+                        Choice::L(x) => *x,
+                        Choice::R(r) => *r.get(),
+                    })
+                } else {
+                    compare!("choice2", u8, A1::new(t.clone()), { let w: Ch2 = Choice::new(A1::new(t.clone())).or(); w }, { let s: Choice<u8, Choice<u8, Never>> = Choice::new(c.state).or(); s }, |s: &Choice<u8, Choice<u8, Never>>| match s {
+                        Choice::L(x) => *x,
+                        Choice::R(r) => *r.get(),
+                    })
+                }
+            }
+            2 => {
+                let un = |s: &Choice<u8, Choice<u8, Choice<u8, Never>>>| match s {
+                    Choice::L(x) => *x,
+                    Choice::R(Choice::L(x)) => *x,
+                    Choice::R(Choice::R(r)) => *r.get(),
+                };
+                match c.position % 3 {
+                    0 => compare!("choice3", u8, A0::new(t.clone()), { let w: Ch3 = Choice::new(A0::new(t.clone())); w }, { let s: Choice<u8, Choice<u8, Choice<u8, Never>>> = Choice::new(c.state); s }, un),
+                    1 => compare!("choice3", u8, A1::new(t.clone()), { let w: Ch3 = Choice::new(A1::new(t.clone())).or(); w }, { let s: Choice<u8, Choice<u8, Choice<u8, Never>>> = Choice::new(c.state).or(); s }, un),
+                    _ => compare!("choice3", u8, A2::new(t.clone()), { let w: Ch3 = Choice::new(A2::new(t.clone())).or().or(); w }, { let s: Choice<u8, Choice<u8, Choice<u8, Never>>> = Choice::new(c.state).or().or(); s }, un),
+                }
+            }
+            3 => {
+                type M = RegisterMsg<u64, char, u8>;
+                compare!("register_server", M, TG::<M, 0>::new(t.clone()), RegisterActor::Server(TG::<M, 0>::new(t.clone())), RegisterActorState::<u8, u64>::Server(c.state), |s: &RegisterActorState<u8, u64>| match s {
+                    RegisterActorState::Server(x) => *x,
+                    _ => 255,
+                })
+            }
+            _ => {
+                type M = WORegisterMsg<u64, char, u8>;
+                compare!("wo_register_server", M, TG::<M, 0>::new(t.clone()), WORegisterActor::Server(TG::<M, 0>::new(t.clone())), WORegisterActorState::<u8, u64>::Server(c.state), |s: &WORegisterActorState<u8, u64>| match s {
+                    WORegisterActorState::Server(x) => *x,
+                    _ => 255,
+                })
+            }
+        }
+        Ok(())
+    }
+    fn mandatory(&self) -> Vec<&'static str> {
+        let mut v = vec!["touched_but_equal"];
+        for a in ["choice1", "choice2", "choice3", "register_server", "wo_register_server"] {
+            for k in ["on_start", "on_msg", "on_timeout", "on_random"] {
+                v.push(Box::leak(format!("{}/{}", a, k).into_boxed_str()) as &'static str);
+            }
+        }
+        v
+    }
+}
+
+// ---------------------------------------------------------------------------------------------
 // The scripted Vec client
 // ---------------------------------------------------------------------------------------------
 
@@ -307,6 +449,6 @@ pub fn spec() -> PropSpec {
         level: "exploration",
         rule: "Cases = generated table-driven actor systems using messages, timers and random choices, with every actor wrapped in Choice<A,Never>, choice![A,B], choice![A,B,C] (each actor in a generated position) or as RegisterActor::Server / WORegisterActor::Server (the inner actor speaking RegisterMsg / WORegisterMsg through a bijection with the small alphabet). Oracle: the projection that unwraps every actor state must be a bisimulation onto the reference interpreter of the *unwrapped* system: initial state, enabled-action multisets, None-ness and every successor component for every reachable (state, action). Vec client: all executions of systems of scripted Vec clients on three networks x lossy; at every state each client has sent exactly its script prefix of length min(len, 1 + #messages received), in order. One evaluation = one (state, action) pair / one visited state. Non-trivial = transitions caused by Timeout or SelectRandom or handlers with >= 2 commands; scripts of >= 3 with >= 2 received. Distinct by hash of (adapter, system, state, action).",
         assumptions: vec!["the reference interpreter agrees with the unwrapped actors (checked by C06 on the same generator)"],
-        subs: vec![Box::new(Adapters), Box::new(VecClient)],
+        subs: vec![Box::new(Adapters), Box::new(HandlerLevel), Box::new(VecClient)],
     }
 }
